@@ -90,13 +90,28 @@ _K1_BOUNDS = [dict(rows_sigma=3, cols_sigma=2, rows_tau=3, cols_tau=2, startK=0,
               dict(rows_sigma=3, cols_sigma=2, rows_tau=3, cols_tau=2, startK=1, endK=3, density_offset=0,
                    len_density=3, len_path=3, nlayers=3, ngrid=2, layer=0)]
 
+def _k1_native(modname, fname):
+    def native(c, p):
+        """the compiled (numba) kernel itself on concrete arrays; tau is updated in place"""
+        import importlib
+        import numpy as np
+        f = getattr(importlib.import_module(modname), fname)
+        tau = np.array(p['tau'], dtype=np.float64).reshape(p['rows_tau'] if 'rows_tau' in p else len(p['tau']), -1)
+        sigma = np.array(p['sigma'], dtype=np.float64)
+        f(int(p['startK']), int(p['endK']), int(p['density_offset']), sigma, np.array(p['density'], dtype=np.float64),
+          np.array(p['path'], dtype=np.float64), int(p['nlayers']), int(p['ngrid']), int(p['layer']), tau)
+        return None, dict(p, tau=tau)
+    return native
+
+
 K1 = Unit(['C01', 'C03', 'C13'], 'taurex.contributions.contribution:contribute_tau', _k1_params, pre=k1_pre,
           post=k1_post(1), frame=['tau'], invariants=k1_invs(1), bounds=_K1_BOUNDS, gen=_k1_gen,
+          native=_k1_native('taurex.contributions.contribution', 'contribute_tau'),
           doc='K1: tau[layer,w] += sum_k sigma[k+layer,w]*path[k]*density[k+offset]; nothing else written')
 
 
 KCIA = Unit(['C03', 'C01'], 'taurex.contributions.cia:contribute_cia', _k1_params, pre=k1_pre, post=k1_post(2),
-            frame=['tau'], invariants=k1_invs(2), bounds=_K1_BOUNDS, gen=_k1_gen,
+            frame=['tau'], invariants=k1_invs(2), bounds=_K1_BOUNDS, gen=_k1_gen, native=_k1_native('taurex.contributions.cia', 'contribute_cia'),
             doc='CIA kernel: as K1 with density squared')
 
 
